@@ -119,7 +119,8 @@ V: List[Tuple[str, str, List[str], str, str, str, List[str]]] = [
     ("array-validator-orphan", "break", ["C08"], PC + "_ast.py", "        self.validate_array_cap()\n        self.validate_array_element_type()", "        self.validate_array_cap()", ["A8"]),
     ("close-msg-no-freeze", "break", ["C08"], PC + "parser.py", "        message.scope_end_col = self._get_col(p, 1)  # '}'\n        message.freeze()", "        message.scope_end_col = self._get_col(p, 1)  # '}'", ["A8"]),
     ("alias-in-message-grammar", "break", ["C08"], PC + "grammars.py", "message_item : option\n             | enum", "message_item : option\n             | alias\n             | enum", ["B3"]),
-    ("unsupported-enum-const", "break", ["C08"], PC + "parser.py", "        if isinstance(p[1], Constant):\n            raise ConstInEnumUnsupported.from_token(token=p[1])\n", "", ["B3"]),
+    # a `const` inside an enum is then still rejected, by the generic StatementInMessageUnsupported: acceptance is unchanged
+    ("benign-unsupported-enum-const-generic-error", "benign", ["C08"], PC + "parser.py", "        if isinstance(p[1], Constant):\n            raise ConstInEnumUnsupported.from_token(token=p[1])\n", "", ["B3"]),
     ("lookup-not-reversed", "break", ["C11", "C08"], PC + "parser.py", "for scope in self.scope_stack_in_current_proto()[::-1]:", "for scope in self.scope_stack_in_current_proto():", ["B5"]),
     ("lookup-whole-stack", "break", ["C11"], PC + "parser.py", "for scope in self.scope_stack_in_current_proto()[::-1]:", "for scope in self.current_scope_stack()[::-1]:", ["B5"]),
     ("push-in-open", "break", ["C11", "C08"], PC + "parser.py", "            scope_start_col=self._get_col(p, 4),  # '{'\n        )\n        self.push_scope(message)", "            scope_start_col=self._get_col(p, 4),  # '{'\n        )\n        self.current_scope().push_member(message)\n        self.push_scope(message)", ["B5"]),
